@@ -1,8 +1,8 @@
 /-
   C30 (part 1) — every place where the compile path observes the iteration order of a `set` is accounted for.
 
-  `Gen/SetIterSites.lean` is READ from compiler.py, idtracking.py, ext.py, parser.py, nodes.py, meta.py, optimizer.py on
-  every run.  A site passes if the translator could justify it structurally (`sorted`, or `insensitive` with a rule name),
+  `Gen/SetIterSites.lean` is READ from compiler.py, idtracking.py, ext.py, parser.py, nodes.py, meta.py, optimizer.py and from
+  filters.py, tests.py, utils.py (filters and tests run at compile time when constant folding applies) on every run.  A site passes if the translator could justify it structurally (`sorted`, or `insensitive` with a rule name),
   or if it is on the allow-list below.  A NEW unsorted iteration over a set (or a `sorted(` that disappears) is neither,
   and `set_sites_covered` stops checking.
 -/
